@@ -135,6 +135,12 @@ def check(prop, tier):
                                    behaviour=v["behaviour"]))
         else:
             webhook_note += "; NOT explained by Webhooks.tla at a %s step (outside C15, see ./check W01)" % v["event"].get("a")
+    wcrashed, wdetail = webhookchk.stress(tier, os.path.join(wd, "webhook-stress"), drivebin)
+    if wcrashed and ("fatal error" in wdetail or "panic" in wdetail):
+        violations.append(dict(what="C15_NoCrash", event={"rpc": "webhooks.Webhooks+notifications", "msg": "SignedHash", "must": False, "shape": {},
+                                                        "outcome": "process died", "detail": wdetail}))
+    else:
+        webhook_note += "; concurrent valid Webhooks / notifications: " + wdetail
     log("[webhook] " + webhook_note)
     crashed, detail = memberchk.stress(tier, os.path.join(wd, "member-stress"), drivebin)
     if crashed:
